@@ -4,6 +4,7 @@ import os, random
 from . import common
 
 CAPS = [1, 2, 3, 4, 5, 7, 8, 9, 12, 15, 16, 17, 24, 31, 32, 33, 63, 64, 65, 100, 128, 200, 248, 254, 255]
+BIGCAPS = [256, 257, 1000, 2047, 2048, 2049, 4096, 5000, 65535, 65536, 70001]      # bit arrays only: the index type widens with the capacity
 
 def build(variant, extra_flags=(), cxx="g++", opt="-O0"):
     src = os.path.join(common.HARNESS, "units_harness.cpp")
@@ -61,6 +62,19 @@ def gen_bitstream(rng, count, exhaustive_pairs=True):
             tailw = min(cap - w0, 16); tv = rng.randrange(1 << tailw) if tailw else 0; tv2 = tv if (same or rng.random() < 0.5) else tv ^ 1
             ops += ["ws", "w %d %d" % (w0, v0)] + (["w %d %d" % (tailw, tv)] if tailw else []) + ["snap", "eq", "ws", "w %d %d" % (w0, v1)] + (["w %d %d" % (tailw, tv2)] if tailw else []) + ["eq"]
         lines.append("bs %d : %s" % (cap, " ; ".join(ops)))
+    # streams opened at a cursor: the write stream's constructor clears the whole buffer whatever the cursor (so a reused, dirty buffer must
+    # not leak into the fields), the read stream starts reading at its cursor
+    for _ in range(max(6, count // 3)):
+        cap = rng.choice([c for c in CAPS if c >= 9])
+        start = rng.randrange(1, cap - 1)
+        ops = ["dirty %d" % rng.choice([0xFF, 0xAA, 0x55, 0xEE]), "ws %d" % start]; widths = []; used = start
+        while used < cap:
+            w = min(cap - used, rng.choice([1, 3, 5, 8, 12, 16, 32])); widths.append(w); used += w
+            ops.append("w %d %d" % (w, rng.choice([0, 0, 1, rng.randrange(1 << w)])))
+            if rng.random() < 0.3: break
+        ops.append("rs %d" % start); ops += ["r %d" % w for w in widths]
+        ops += ["rs", "r %d" % min(start, 32)]                  # the bits before the start cursor read as zero
+        lines.append("bs %d : %s" % (cap, " ; ".join(ops)))
     return lines
 
 def gen_bitwidth(rng, count):
@@ -75,6 +89,13 @@ def gen_bitarray(rng, count):
     lines = []
     for cap in CAPS:      # the set-all / clear-each history for every capacity
         ops = ["setall"] + ["clr %d" % i for i in range(cap)] + ["setall", "andall", "clrall", "andall"]
+        lines.append("ba %d : %s" % (cap, " ; ".join(ops)))
+    for cap in BIGCAPS:   # capacities whose unit index no longer fits 8 bits (above 2048) or whose index type is 16 / 32 bits wide
+        hi = [cap - 1, cap - 2, cap // 2, (cap // 8) * 8 - 1] + [i for i in (255, 256, 257, 2047, 2048, 2049, 4095, 4096, 65535, 65536) if i < cap]
+        ops = []
+        for i in hi[:8]:
+            ops += ["set %d" % i, "get %d" % i, "get %d" % (i % 2048), "get %d" % (i % 256), "clr %d" % i, "get %d" % i]
+        ops += ["set %d" % (cap - 1), "set 5", "clr %d" % (cap - 1), "get 5", "setall", "clr 0", "clr %d" % (cap - 1), "and 1 %d" % (cap - 2), "clrall"]
         lines.append("ba %d : %s" % (cap, " ; ".join(ops)))
     for _ in range(count):
         cap = rng.choice(CAPS); ops = []
@@ -112,11 +133,12 @@ def gen_arrays(rng, count):
             n = 0
             for _ in range(rng.randint(2, 25)):
                 r = rng.random()
-                if r < 0.45 and n < cap: ops.append("%s %d" % (rng.choice(["emp", "add"]), rng.randint(-99, 99))); n += 1
+                if r < 0.35 and n < cap: ops.append("%s %d" % (rng.choice(["emp", "add", "addc"]), rng.randint(-99, 99))); n += 1
+                elif r < 0.45 and n < cap and n > 0: ops.append("%s %d" % (rng.choice(["emplv", "empc", "addlv"]), rng.randrange(n))); n += 1
                 elif r < 0.65 and n > 0: ops.append("get %d" % rng.randrange(n))
                 elif r < 0.72: ops.append("clear"); n = 0
                 elif n < cap:
-                    k = rng.randint(0, min(4, cap - n)); ops.append("addall " + " ".join(str(rng.randint(0, 9)) for _ in range(k))); n += k
+                    k = rng.randint(0, min(4, cap - n)); ops.append(rng.choice(["addall ", "addall2 "]) + " ".join(str(rng.randint(0, 9)) for _ in range(k))); n += k
             if cap == 255 and rng.random() < 0.5:       # fill to the brim: the uint8_t cursor must not wrap
                 ops = ["emp %d" % (i % 7) for i in range(255)] + ["get 254"]
             lines.append("da %d : %s" % (cap, " ; ".join(ops)))
